@@ -124,6 +124,54 @@ print(json.dumps(out, default=repr))
     res.count('static_error_failures', nbad)
 
 
+WIDTH_IMPL = r'''
+import sys, json
+import rbql
+from rbql import rbql_engine
+out = []
+for q, names, jnames, norm in json.loads(sys.argv[1]):
+    res = []
+    try:
+        rbql.query_table(q, [['1', 'x'], ['2', 'y']], res, [], [['1', 'p'], ['2', 'r']], names, jnames, normalize_column_names=norm)
+        out.append(['no-error', len(res)])
+    except Exception as e:
+        out.append([rbql_engine.exception_to_error_info(e)[0], len(res), str(e)[:80]])
+print(json.dumps(out))
+'''
+
+
+def width_mismatch_check(res):
+    """a list of column names that does not fit the table (input or join, normalised or direct mode) is inconsistent input: an IO-handling error, in both modes,
+    before anything is written"""
+    import subprocess
+    jobs = []
+    for norm in (True, False):
+        for names, jnames in ((['id'], None), (['id', 'name', 'extra'], None), (['id', 'name'], ['k']), (['id', 'name'], ['k', 'v', 'w']), (None, ['k'])):
+            for q in ('select a1', 'select a1, b1 join b on a1 == b1'):
+                jobs.append((q, names, jnames, norm))
+    r = subprocess.run([common.PY, '-W', 'ignore', '-c', WIDTH_IMPL, json.dumps(jobs)], env=common.impl_env(), stdout=subprocess.PIPE, stderr=subprocess.PIPE, timeout=120)
+    try:
+        outs = json.loads(r.stdout.decode().strip().split('\n')[-1])
+    except (ValueError, IndexError):
+        raise RuntimeError('C14 width driver failed: ' + r.stderr.decode()[-300:])
+    nbad = 0
+    for (q, names, jnames, norm), o in zip(jobs, outs):
+        res.evaluations += 1
+        res.nontrivial.add(('width', q, json.dumps([names, jnames, norm])))
+        input_bad = names is not None and len(names) != 2
+        join_bad = jnames is not None and len(jnames) != 2 and ' join ' in q
+        want_err = input_bad or join_bad
+        ok = (o[0] == 'IO handling' and o[1] == 0) if want_err else (o[0] == 'no-error')
+        if not ok:
+            nbad += 1
+            if nbad <= 3:
+                res.violations.append({'property': 'C14', 'impl': 'py', 'why': 'column names that do not fit the table must be refused with an IO-handling error (both name modes), consistent ones accepted',
+                                       'query': q, 'input_column_names': names, 'join_column_names': jnames, 'normalize_column_names': norm, 'observed': o,
+                                       'case_key': 'C14|width|%s|%s' % (q, json.dumps([names, jnames, norm]))})
+    res.count('width_mismatch_cases', len(jobs))
+    res.count('width_mismatch_failures', nbad)
+
+
 def csv_anomaly_lines():
     lines = []
     # writer-side: None in output, delimiter in simple output (with and without the anomaly)
@@ -313,6 +361,7 @@ def run(res, tier, seed):
         res.sample({'query': qgen.render_query(c['q'], 'py'), 'A': c['A'], 'B': c['B']})
     engine_corr.run_cases(res, 'C14', cases, 'py')
     static_error_check(res)
+    width_mismatch_check(res)
     lines = csv_anomaly_lines()
     # the BOM cases must reach the reader as text with encoding utf-8: use readboth-free path (pieces as text need enc none); keep enc none for text
     lines = [l.replace(' utf-8 ', ' none ') for l in lines]
